@@ -375,13 +375,6 @@ func label(place string, f *oracle.Filter, name, line string, realAccept bool) s
 }
 
 func labelASCII(place string, f *oracle.Filter, name, line string, realAccept bool) string {
-	wholeLine := map[string]string{"dest": "dest-filter-sees-value", "aggregate-routing": "aggregate-routing-whole-line"}
-	if line != "" && line != name && f.Accept(line) == realAccept {
-		if s, ok := wholeLine[place]; ok {
-			return s
-		}
-		return place + "-filter-sees-whole-line"
-	}
 	// which single option, asked at the matcher, answers differently from the reference?
 	for _, p := range f.Options() {
 		one := f.Single(p[0])
@@ -395,6 +388,14 @@ func labelASCII(place string, f *oracle.Filter, name, line string, realAccept bo
 			}
 			return place + "-" + p[0] + "-wrong"
 		}
+	}
+	// the matcher is right about the name: was the filter shown the whole line?
+	wholeLine := map[string]string{"dest": "dest-filter-sees-value", "aggregate-routing": "aggregate-routing-whole-line"}
+	if line != "" && line != name && f.Accept(line) == realAccept {
+		if s, ok := wholeLine[place]; ok {
+			return s
+		}
+		return place + "-filter-sees-whole-line"
 	}
 	if realAccept {
 		if fl := f.Failing(name); len(fl) > 0 {
@@ -423,9 +424,13 @@ func (k *checker) decideWith(orc bool, place string, idx int, spec fspec, f *ora
 }
 
 // settle waits, by bounded steps, until get() reaches want; counters only grow,
-// so overshooting ends the wait at once.
+// so overshooting ends the wait at once. Every caller has passed a barrier
+// before (route.Flush goes through the relay loop that counted the hand-off; a
+// forced tick is accepted by the aggregator loop only after the lookups), so the
+// counters are already final and the step bound is small: it only matters when
+// the relay disagrees with the oracle.
 func settle(get func() int64, want int64) bool {
-	for i := 0; i < 20000; i++ {
+	for i := 0; i < 150; i++ {
 		g := get()
 		if g == want {
 			return true
@@ -433,7 +438,7 @@ func settle(get func() int64, want int64) bool {
 		if g > want {
 			return false
 		}
-		if i < 200 {
+		if i < 100 {
 			runtime.Gosched()
 		} else {
 			time.Sleep(200 * time.Microsecond)
@@ -582,7 +587,7 @@ func (b *barrier) catchRoute(key string) *mon.CaptureRoute {
 // been routed completely by then. Returns the sentinel line.
 func (b *barrier) sync(res *mon.Result) (string, bool) {
 	b.n++
-	line := fmt.Sprintf("%s 1 %d", sentinel, b.n)
+	line := sentinel + " 1 1" // always the same text: what a route does with it is then a constant of the case
 	b.t.In <- []byte(line)
 	select {
 	case <-b.ch:
@@ -791,7 +796,7 @@ func (p *routePlace) runRoute(idx int) {
 			}
 		}
 	}
-	pass(c.names(r, 10, 1))
+	pass(c.names(r, 8, 1))
 	if acc > 0 && rej > 0 {
 		k.res.NonTrivial("route|" + f.String())
 	}
@@ -816,7 +821,7 @@ func (p *routePlace) runRoute(idx int) {
 		k.res.Count("filters_modified_at_runtime", 1)
 		spec, config, f = merged, cmd+" ; "+mod, f2
 		c2.Spec = merged
-		pass(append(c.names(r, 4, 1), c2.names(r, 4, 1)...))
+		pass(append(c.names(r, 3, 1), c2.names(r, 3, 1)...))
 	}
 }
 
@@ -948,7 +953,7 @@ func (p *routePlace) runDest(idx int) {
 	}
 	var names []string
 	for i := range cases {
-		names = append(names, cases[i].names(r, 12/nd+2, 1)...)
+		names = append(names, cases[i].names(r, 8/nd+2, 1)...)
 	}
 	pass(names)
 	// history: modDest changes the filter of one destination
@@ -965,7 +970,7 @@ func (p *routePlace) runDest(idx int) {
 			k.res.Count("filters_modified_at_runtime", 1)
 			specs[i], fs[i], config = merged, f2, cmd+" ; "+mod
 			c2.Spec = merged
-			pass(append(cases[i].names(r, 4, 1), c2.names(r, 4, 1)...))
+			pass(append(cases[i].names(r, 3, 1), c2.names(r, 3, 1)...))
 		} else if oerr == nil {
 			k.res.Inconclusive(fmt.Sprintf("dest case %d: %q was refused: %v", idx, mod, aerr))
 		}
@@ -1087,6 +1092,7 @@ func (p *aggPlace) run(idx int) {
 		n := 3 + r.Intn(8)
 		var evs []lookup
 		rawPassed := map[int64]bool{}
+		rawSent := map[string]int{}
 		consumed := map[int64]bool{}
 		for j := 0; j < n; j++ {
 			name := pool[r.Intn(len(pool))]
@@ -1098,6 +1104,7 @@ func (p *aggPlace) run(idx int) {
 			k.res.Count("agg_lookups", 1)
 			if viaTable {
 				before := p.cap.Len()
+				rawSent[name+" "+val+" "+tss]++
 				p.t.Dispatch([]byte(name + " " + val + " " + tss))
 				rawPassed[ts] = p.cap.Len() > before
 			} else {
@@ -1108,7 +1115,15 @@ func (p *aggPlace) run(idx int) {
 		outputs := map[int64]int{}
 		record := func(line string) {
 			fl := strings.Fields(line)
-			if len(fl) != 3 || fl[0] != aggOutName {
+			if len(fl) != 3 || fl[0] != aggOutName || strings.HasPrefix(line, " ") {
+				if rawSent[line] > 0 { // (wired into a table) a raw line that passed through
+					rawSent[line]--
+					return
+				}
+				if oracle.NameOf(line) == sentinel {
+					return
+				}
+				k.res.Violate("agg-unexpected-output", fmt.Sprintf("aggregation {%s} (output name %q) emitted the line %q", f.String(), aggOutName, line), witness{Place: "agg", Case: idx, Filter: c.Spec, Line: line, Config: config, Detail: hist})
 				return
 			}
 			t, _ := strconv.ParseInt(fl[2], 10, 64)
@@ -1241,14 +1256,14 @@ func (p *aggRoutePlace) run(idx int) {
 		names = []string{"agg.cpu", "agg.mem", "cpu", "agg.cpu5"}
 	} else {
 		realCase = genFilter(r, false, true, true)
-		names = realCase.names(r, 4, 1)
+		names = realCase.names(r, 3, 1)
 	}
 	for i := 0; i < ncap; i++ {
 		c := genFilter(r, false, false, true)
 		if idx == 0 {
 			c = fcase{Spec: fspec{Regex: "cpu$"}, seed: "agg.cpu"}
 		} else {
-			names = append(names, c.names(r, 3, 1)...)
+			names = append(names, c.names(r, 2, 1)...)
 		}
 		f, oe := c.Spec.oracle()
 		m, re := c.Spec.real()
@@ -1321,6 +1336,26 @@ func (p *aggRoutePlace) run(idx int) {
 	if idx < 2 {
 		k.res.Sample(map[string]interface{}{"place": "aggregate-routing", "config": cfg, "aggregate_names": names})
 	}
+	// the sentinel alone: what the carbon route does with it is measured once
+	// (the catch route is last, so when it signals the sentinel has been offered to every route)
+	dcal := mon.NewDeltas(dkey)
+	sline0, ok := bar.sync(k.res)
+	if !ok {
+		return
+	}
+	rt.Flush()
+	sentinelHandoffs := dcal.Get(dkey)
+	if sentinelHandoffs > 1 {
+		k.res.Violate("aggregate-routing-handoff-count", fmt.Sprintf("route %s counted %d hand-offs for the single line %q", rkey, sentinelHandoffs, sline0),
+			witness{Place: "aggregate-routing", Case: idx, Filter: realCase.Spec, Name: sentinel, Line: sline0, Config: cfg})
+		return
+	}
+	k.decide("aggregate-routing", idx, realCase.Spec, fr, sentinel, sline0, sentinelHandoffs == 1, cfg, nil)
+	for _, ro := range routes {
+		if ro.cap != nil {
+			ro.cap.Take()
+		}
+	}
 	accs, rejs := make([]int, len(routes)), make([]int, len(routes))
 	for e, name := range names {
 		base := (clk.get()/interval + 1) * interval
@@ -1365,7 +1400,7 @@ func (p *aggRoutePlace) run(idx int) {
 		// both the aggregate and the sentinel are lines that entered Table.In
 		anyRoute := false
 		for i, ro := range routes {
-			orcN, orcS := ro.f.Accept(name), ro.f.Accept(sentinel)
+			orcN := ro.f.Accept(name)
 			anyRoute = anyRoute || orcN
 			var gotN, gotS, other int64
 			var detail interface{}
@@ -1390,22 +1425,16 @@ func (p *aggRoutePlace) run(idx int) {
 					continue
 				}
 			} else {
-				want := b2i(orcN) + b2i(orcS)
+				want := b2i(orcN) + sentinelHandoffs
 				settle(func() int64 { return d.Get(dkey) }, want)
 				got := d.Get(dkey)
-				detail = map[string]interface{}{"route": ro.key, "handoffs_counted": got, "aggregate": aggLine, "sentinel": sline, "event": e}
+				detail = map[string]interface{}{"route": ro.key, "handoffs_counted": got, "of_which_sentinel": sentinelHandoffs, "aggregate": aggLine, "sentinel": sline, "event": e}
 				k.res.Count("dest_handoffs_observed", int(got))
-				if got == want {
-					gotN, gotS = b2i(orcN), b2i(orcS)
-				} else {
-					// attribute the difference to the aggregate unless only the sentinel can explain it
-					gotS = b2i(orcS)
-					gotN = got - gotS
-					if gotN < 0 || gotN > 1 {
-						k.res.Violate("aggregate-routing-handoff-count", fmt.Sprintf("route %s counted %d hand-offs for aggregate %q + sentinel, expected %d", ro.key, got, aggLine, want),
-							witness{Place: "aggregate-routing", Case: idx, Filter: ro.spec, Name: name, Line: aggLine, Config: cfg, Detail: detail})
-						continue
-					}
+				gotN = got - sentinelHandoffs // what the route does with the sentinel alone was measured before
+				if gotN < 0 || gotN > 1 {
+					k.res.Violate("aggregate-routing-handoff-count", fmt.Sprintf("route %s counted %d hand-offs for aggregate %q + sentinel, expected %d", ro.key, got, aggLine, want),
+						witness{Place: "aggregate-routing", Case: idx, Filter: ro.spec, Name: name, Line: aggLine, Config: cfg, Detail: detail})
+					continue
 				}
 			}
 			if orcN {
